@@ -335,6 +335,8 @@ class DFXPWriter(BaseWriter):
         :rtype: str
         """
         dfxp = BeautifulSoup(DFXP_BASE_MARKUP, 'lxml-xml')
+        # a caption with an unclosed style node must not leak into the next write
+        self.open_span = False
 
         langs = caption_set.get_languages()
         if force in langs:
